@@ -688,11 +688,10 @@ def exhaustive_case(kind):
         nvariants = ndirected + NRANDOM_TINY[kind]     # + seeded random tiny meshes
         i = k % nvariants
         mesh, name = fn(rng, i)
-        variant = k // nvariants
-        if variant % 2 == 1:
+        if k % 2 == 1:
             mesh = renumbered(rng, mesh, kind)
             name += "-renumbered"
-        if variant % 3 != 2:
+        if k % 3 != 2:
             mesh = with_tags(rng, mesh)
             name += "-tagged"
         nt = mesh.t.shape[1]
